@@ -513,4 +513,155 @@ theorem dir_inj {l1 b1 l2 b2 : ℝ} (hb1 : -90 < b1 ∧ b1 < 90) (hb2 : -90 ≤ 
   have : rad l1 = rad l2 := by simp at hn; linarith
   unfold rad at this
   exact ⟨mul_right_cancel₀ hp.ne' this, hbb⟩
+
+/-! ### `straight_line`: which exception, and the ranges -/
+
+theorem clamp_abs_le_one (q : ℝ) : |pmax2 (-1.0) (pmin2 1.0 q)| ≤ 1 := by
+  unfold pmax2 pmin2 plt
+  by_cases h1 : q < 1.0
+  · by_cases h2 : (-1.0 : ℝ) < q
+    · simp only [h1, h2, decide_true, if_true]
+      rw [abs_le]; constructor <;> norm_num at h1 h2 ⊢ <;> linarith
+    · simp only [h1, h2, decide_true, decide_false, if_true, Bool.false_eq_true, if_false]; norm_num
+  · have h3 : (-1.0 : ℝ) < 1.0 := by norm_num
+    simp only [h1, h3, decide_true, decide_false, if_true, Bool.false_eq_true, if_false]; norm_num
+
+/-- The last statements of `straight_line` as a function of the two numerators and denominators. -/
+def sl_tail (n1 d1 n2 d2 : ℝ) : PyRes (ℝ × ℝ) := do
+  let q1 ← m_div n1 d1
+  let psi ← m_acos (pmax2 (-1.0) (pmin2 1.0 q1))
+  let q2 ← m_div n2 d2
+  let omega ← m_asin (pmax2 (-1.0) (pmin2 1.0 q2))
+  pure (a_of_rad psi, a_of_rad omega)
+
+theorem straight_line_eq_tail (α1 δ1 α2 δ2 α3 δ3 : ℝ) :
+    ∃ n1 d1 n2 d2, straight_line α1 δ1 α2 δ2 α3 δ3 = sl_tail n1 d1 n2 d2 := ⟨_, _, _, _, rfl⟩
+
+theorem m_div_zero (x : ℝ) : m_div x 0 = .error .zeroDivisionError := by
+  unfold m_div peq; norm_num
+
+theorem sl_tail_total (n1 d1 n2 d2 : ℝ) :
+    (∃ psi omega, sl_tail n1 d1 n2 d2 = .ok (psi, omega) ∧ (0 ≤ psi ∧ psi ≤ 180) ∧ (-90 ≤ omega ∧ omega ≤ 90)
+        ∧ d1 ≠ 0 ∧ d2 ≠ 0) ∨
+    (sl_tail n1 d1 n2 d2 = .error .zeroDivisionError ∧ (d1 = 0 ∨ d2 = 0)) := by
+  unfold sl_tail
+  by_cases h1 : d1 = 0
+  · right; subst h1; refine ⟨?_, Or.inl rfl⟩; simp only [m_div_zero, bind, Except.bind]
+  · by_cases h2 : d2 = 0
+    · right; subst h2; refine ⟨?_, Or.inr rfl⟩
+      simp only [m_div_ok h1, m_acos_ok (clamp_abs_le_one _), m_div_zero, bind, Except.bind]
+    · left
+      simp only [m_div_ok h1, m_div_ok h2, m_acos_ok (clamp_abs_le_one _), m_asin_ok (clamp_abs_le_one _), bind,
+        Except.bind, pure, Except.pure]
+      refine ⟨_, _, rfl, ?_, a_of_rad_arcsin_range _, h1, h2⟩
+      have h0 := arccos_nonneg (pmax2 (-1.0) (pmin2 1.0 (n1 / d1)))
+      have hpi := arccos_le_pi (pmax2 (-1.0) (pmin2 1.0 (n1 / d1)))
+      have hab : |arccos (pmax2 (-1.0) (pmin2 1.0 (n1 / d1)))| < 2 * π := by
+        rw [abs_lt]; constructor <;> linarith [pi_pos]
+      apply a_of_rad_bounds hab <;> linarith [pi_pos]
+
+
+/-! ### `circle_diameter` does not depend on the order of the three bodies -/
+
+/-- the choice of the largest separation, as in the source -/
+def circ_sel (d12 d13 d23 : ℝ) : ℝ × ℝ × ℝ :=
+  if !(plt d12 d13) && !(plt d12 d23) then (d12, d13, d23)
+  else if !(plt d13 d12) && !(plt d13 d23) then (d13, d12, d23)
+  else (d23, d12, d13)
+
+/-- the statements after the choice -/
+def circ_tail (abc : ℝ × ℝ × ℝ) : PyRes ℝ :=
+  if ple (psqrt (abc.2.1 * abc.2.1 + abc.2.2 * abc.2.2)) abc.1 then pure (a_reduce abc.1)
+  else do
+    let r ← m_sqrt ((abc.1 + abc.2.1 + abc.2.2) * (abc.1 + abc.2.1 - abc.2.2) * (abc.2.1 + abc.2.2 - abc.1)
+              * (abc.1 + abc.2.2 - abc.2.1))
+    let d ← m_div (2.0 * abc.1 * abc.2.1 * abc.2.2) r
+    pure (a_reduce d)
+
+theorem circle_diameter_eq (α1 δ1 α2 δ2 α3 δ3 : ℝ) :
+    circle_diameter α1 δ1 α2 δ2 α3 δ3 = (do
+      let d12 ← angular_separation α1 δ1 α2 δ2
+      let d13 ← angular_separation α1 δ1 α3 δ3
+      let d23 ← angular_separation α2 δ2 α3 δ3
+      circ_tail (circ_sel d12 d13 d23)) := rfl
+
+theorem circ_tail_swap (a b c : ℝ) : circ_tail (a, b, c) = circ_tail (a, c, b) := by
+  unfold circ_tail
+  simp only
+  have e1 : c * c + b * b = b * b + c * c := by ring
+  have e2 : (a + c + b) * (a + c - b) * (c + b - a) * (a + b - c)
+      = (a + b + c) * (a + b - c) * (b + c - a) * (a + c - b) := by ring
+  have e3 : (2.0 : ℝ) * a * c * b = 2.0 * a * b * c := by generalize (2.0 : ℝ) = t; ring
+  rw [e1, e2, e3]
+
+theorem circ_sel_swap23 (x y z : ℝ) : circ_tail (circ_sel x y z) = circ_tail (circ_sel x z y) := by
+  unfold circ_sel plt
+  by_cases c1 : ¬ (x < y) ∧ ¬ (x < z)
+  · simp only [c1.1, c1.2, decide_false, Bool.not_false, Bool.and_self, if_true]
+    exact circ_tail_swap x y z
+  · by_cases c2 : ¬ (y < x) ∧ ¬ (y < z)
+    · by_cases c3 : ¬ (z < x) ∧ ¬ (z < y)
+      · have hzy : z = y := le_antisymm (not_lt.mp c2.2) (not_lt.mp c3.2)
+        subst hzy
+        rcases not_and_or.mp c1 with h | h <;> simp [not_not.mp h, c2.1]
+      · rcases not_and_or.mp c1 with h | h <;> rcases not_and_or.mp c3 with h' | h' <;>
+          simp [not_not.mp h, not_not.mp h', c2.1, c2.2]
+    · -- z is the strict maximum
+      have hzx : x < z := by
+        rcases not_and_or.mp c1 with h | h
+        · rcases not_and_or.mp c2 with h' | h'
+          · exact absurd (not_not.mp h') (not_lt.mpr (not_not.mp h).le)
+          · exact lt_trans (not_not.mp h) (not_not.mp h')
+        · exact not_not.mp h
+      have hzy : y < z := by
+        rcases not_and_or.mp c2 with h' | h'
+        · exact lt_trans (not_not.mp h') hzx
+        · exact not_not.mp h'
+      rcases not_and_or.mp c1 with h | h <;> rcases not_and_or.mp c2 with h' | h' <;>
+        simp [hzx, hzy, not_lt.mpr hzx.le, not_lt.mpr hzy.le, not_not.mp h, not_not.mp h']
+
+
+theorem circ_sel_swap12 (x y z : ℝ) : circ_tail (circ_sel x y z) = circ_tail (circ_sel y x z) := by
+  unfold circ_sel plt
+  by_cases c1 : ¬ (x < y) ∧ ¬ (x < z)
+  · by_cases c0 : ¬ (y < x) ∧ ¬ (y < z)
+    · have hxy : y = x := le_antisymm (not_lt.mp c1.1) (not_lt.mp c0.1)
+      subst hxy
+      simp [c1.2]
+    · rcases not_and_or.mp c0 with h | h <;> simp [c1.1, c1.2, not_not.mp h]
+  · by_cases c2 : ¬ (y < x) ∧ ¬ (y < z)
+    · rcases not_and_or.mp c1 with h | h <;> simp [c2.1, c2.2, not_not.mp h]
+    · have e : circ_tail (z, x, y) = circ_tail (z, y, x) := circ_tail_swap z x y
+      rcases not_and_or.mp c1 with h | h <;> rcases not_and_or.mp c2 with h' | h' <;>
+        simp [not_not.mp h, not_not.mp h', e]
+
+theorem angular_separation_comm (α1 δ1 α2 δ2 : ℝ) :
+    angular_separation α1 δ1 α2 δ2 = angular_separation α2 δ2 α1 δ1 := by
+  obtain ⟨θ, h, hc, h0, h1⟩ := angular_separation_spec α1 δ1 α2 δ2
+  obtain ⟨θ', h', hc', h0', h1'⟩ := angular_separation_spec α2 δ2 α1 δ1
+  rw [h, h']
+  congr 1
+  apply deg_eq_of_cos_eq ⟨h0, h1⟩ ⟨h0', h1'⟩
+  rw [hc, hc', dot_comm]
+
+/-- exchanging bodies 2 and 3 -/
+theorem circle_diameter_swap23 (α1 δ1 α2 δ2 α3 δ3 : ℝ) :
+    circle_diameter α1 δ1 α2 δ2 α3 δ3 = circle_diameter α1 δ1 α3 δ3 α2 δ2 := by
+  rw [circle_diameter_eq, circle_diameter_eq, angular_separation_comm α3 δ3 α2 δ2]
+  obtain ⟨s12, h12, _⟩ := angular_separation_spec α1 δ1 α2 δ2
+  obtain ⟨s13, h13, _⟩ := angular_separation_spec α1 δ1 α3 δ3
+  obtain ⟨s23, h23, _⟩ := angular_separation_spec α2 δ2 α3 δ3
+  simp only [h12, h13, h23, bind, Except.bind]
+  exact circ_sel_swap12 s12 s13 s23
+
+/-- exchanging bodies 1 and 2 -/
+theorem circle_diameter_swap12 (α1 δ1 α2 δ2 α3 δ3 : ℝ) :
+    circle_diameter α1 δ1 α2 δ2 α3 δ3 = circle_diameter α2 δ2 α1 δ1 α3 δ3 := by
+  rw [circle_diameter_eq, circle_diameter_eq, angular_separation_comm α2 δ2 α1 δ1]
+  obtain ⟨s12, h12, _⟩ := angular_separation_spec α1 δ1 α2 δ2
+  obtain ⟨s13, h13, _⟩ := angular_separation_spec α1 δ1 α3 δ3
+  obtain ⟨s23, h23, _⟩ := angular_separation_spec α2 δ2 α3 δ3
+  simp only [h12, h13, h23, bind, Except.bind]
+  exact circ_sel_swap23 s12 s13 s23
+
 end Pymeeus.Refine.Coords
